@@ -7,6 +7,12 @@ container itself as the key.  Both only work under the laws of `__eq__` / `__has
   (b) `__eq__` compares attribute A of self with attribute A of other, joined by `and`, and answers False for foreign types;
   (c) a memoised method of the class reads only attributes of self that `__eq__` compares
       (otherwise the answer computed for one state is handed out for another state with the same key).
+  (d) every attribute `__eq__` compares holds plain values (str, numbers, None, displays of those): every operation
+      deep-copies its operands, and an arbitrary object (no value equality) stops being equal to its own copy - the
+      substance the caller holds is then no longer found in the result;
+  (e) every attribute of a Substance that the conversions of class Unit read is compared by `__eq__`: two substances
+      with different constants that compare equal share one entry, and what was booked under one is converted with
+      the constants of the other.
 The rule is stated over attribute sets read from the current sources, not over a frozen list of fields."""
 from __future__ import annotations
 
@@ -37,6 +43,118 @@ def _reads_transitively(model, ci, fi, seen):
                 out |= _reads_transitively(model, ci, m, seen)
             else:
                 out.add(x.attr)
+    return out
+
+
+PLAIN = {'str', 'int', 'float', 'bool', 'complex', 'bytes'}
+
+
+def _plain_param(fi, name):
+    """Is parameter `name` of fi known to hold a plain value (annotation or an isinstance test against plain types)?"""
+    ann = fi.annotation(name) or ''
+    if ann and all(t.strip() in PLAIN | {'None'} for t in ann.replace('Optional[', '').replace(']', '').split('|')):
+        return True
+    for t in ast.walk(fi.node):
+        if isinstance(t, ast.Call) and getattr(t.func, 'id', '') == 'isinstance' and len(t.args) == 2 and \
+                isinstance(t.args[0], ast.Name) and t.args[0].id == name:
+            kinds = t.args[1].elts if isinstance(t.args[1], ast.Tuple) else [t.args[1]]
+            if all(isinstance(k, ast.Name) and k.id in PLAIN for k in kinds):
+                return True
+    return False
+
+
+def _plain_expr(model, ci, fi, e, depth=0):
+    if depth > 6:
+        return False
+    if isinstance(e, ast.Constant):
+        return True
+    if isinstance(e, (ast.BinOp,)):
+        return _plain_expr(model, ci, fi, e.left, depth + 1) and _plain_expr(model, ci, fi, e.right, depth + 1)
+    if isinstance(e, ast.UnaryOp):
+        return _plain_expr(model, ci, fi, e.operand, depth + 1)
+    if isinstance(e, ast.IfExp):
+        return _plain_expr(model, ci, fi, e.body, depth + 1) and _plain_expr(model, ci, fi, e.orelse, depth + 1)
+    if isinstance(e, (ast.Compare, ast.BoolOp, ast.JoinedStr)):
+        return True
+    if isinstance(e, (ast.Dict, ast.List, ast.Set, ast.Tuple)):
+        items = (list(e.keys) + list(e.values)) if isinstance(e, ast.Dict) else list(e.elts)
+        return all(x is None or _plain_expr(model, ci, fi, x, depth + 1) for x in items)
+    if isinstance(e, ast.Call):
+        f = e.func
+        if isinstance(f, ast.Name) and f.id in ('float', 'int', 'str', 'round', 'abs', 'len', 'min', 'max', 'bool', 'sum'):
+            return True
+        if isinstance(f, ast.Attribute) and isinstance(f.value, ast.Name) and f.value.id in ('Unit', 'math', 'numpy', 'np'):
+            return True
+        return False
+    if isinstance(e, ast.Attribute):
+        if isinstance(e.value, ast.Name) and e.value.id == 'config':
+            return True
+        if isinstance(e.value, ast.Name) and e.value.id in model.classes:
+            return True         # class constant
+        return _plain_attr(model, ci, e.attr, depth + 1)
+    if isinstance(e, ast.Subscript):
+        return _plain_expr(model, ci, fi, e.value, depth + 1)
+    if isinstance(e, ast.Name):
+        if e.id in fi.all_param_names():
+            return _plain_param(fi, e.id)
+        defs = []
+        for st in ast.walk(fi.node):
+            if isinstance(st, ast.Assign):
+                for t in st.targets:
+                    if isinstance(t, ast.Name) and t.id == e.id:
+                        defs.append(st.value)
+                    elif isinstance(t, ast.Tuple) and any(isinstance(x, ast.Name) and x.id == e.id for x in t.elts):
+                        defs.append(st.value)
+            elif isinstance(st, ast.AugAssign) and isinstance(st.target, ast.Name) and st.target.id == e.id:
+                defs.append(st.value)
+        return bool(defs) and all(_plain_expr(model, ci, fi, d, depth + 1) for d in defs)
+    return False
+
+
+def _plain_attr(model, ci, attr, depth=0):
+    """Every store to `<obj>.attr` in the constructor and the static factories of the class assigns a plain value."""
+    stores = []
+    for m in ci.methods.values():
+        if m.name != '__init__' and 'staticmethod' not in m.decorators and 'classmethod' not in m.decorators:
+            continue
+        for st in ast.walk(m.node):
+            if isinstance(st, (ast.Assign, ast.AnnAssign)) and st.value is not None:
+                targets = st.targets if isinstance(st, ast.Assign) else [st.target]
+                if any(isinstance(t, ast.Attribute) and t.attr == attr for t in targets):
+                    stores.append((m, st.value))
+    if not stores:
+        return False
+    return all(_plain_expr(model, ci, m, v, depth + 1) for m, v in stores)
+
+
+def _conversion_reads(model):
+    """Attributes of a Substance read (also through Substance's own methods) by the static conversions of class Unit."""
+    unit = model.classes.get('Unit')
+    sub = model.classes.get('Substance')
+    out = {}
+    if unit is None or sub is None:
+        return out
+
+    def reads(fi, pname, seen):
+        got = set()
+        if (fi.qualname, pname) in seen:
+            return got
+        seen.add((fi.qualname, pname))
+        for x in ast.walk(fi.node):
+            if isinstance(x, ast.Attribute) and isinstance(x.value, ast.Name) and x.value.id == pname:
+                m = model.lookup_method('Substance', x.attr)
+                if m is not None and not m.is_property:
+                    got |= reads(m, m.param_names(drop_self=False)[0], seen)
+                else:
+                    got.add(x.attr)
+        return got
+    for m in unit.methods.values():
+        for p in m.all_param_names():
+            ann = m.annotation(p) or ''
+            if p in ('substance', 'solute', 'solvent') or ann.strip() == 'Substance':
+                for a in reads(m, p, set()):
+                    if not a.startswith('__'):
+                        out.setdefault(a, m.qualname)
     return out
 
 
@@ -91,6 +209,23 @@ def identity_discipline(ctx, rule, classes=('Substance', 'Container'), memoised=
         ctx.ob(rule, eq, eq.node.lineno, f"{cname}.__eq__ is a conjunction of attribute-wise equalities on one type", not bad,
                fact=f"compared {sorted(eq_self)}", why='; '.join(bad) + ': objects that differ compare equal (their entries '
                'merge) or equal ones differ', key=f"eq shape {cname}")
+        # (d) compared attributes hold plain values
+        opaque = sorted(a for a in eq_self if not _plain_attr(model, ci, a) and
+                        not (cname == 'Container' and a == 'contents'))
+        ctx.ob(rule, eq, eq.node.lineno, f"{cname}.__eq__ compares only attributes that hold plain values", not opaque,
+               fact=f"compared {sorted(eq_self)}",
+               why=f"{opaque} can hold an arbitrary object, which equals only itself: after the deep copy every operation "
+                   f"makes, the {cname.lower()} in the result no longer equals the one the caller holds",
+               key=f"eq on opaque attribute {cname}")
+        # (e) what the conversions read is part of the identity
+        if cname == 'Substance':
+            conv = _conversion_reads(model)
+            missing = sorted(a for a in conv if a not in eq_self)
+            ctx.ob(rule, eq, eq.node.lineno, 'every Substance attribute the Unit conversions read is compared by __eq__',
+                   not missing, fact=f"read by conversions {sorted(conv)}; compared {sorted(eq_self)}",
+                   why=f"{missing} (read by {', '.join(sorted({conv[a] for a in missing}))}) are not compared: two "
+                       f"substances with different constants are one dictionary key, and amounts booked under one are "
+                       f"converted with the constants of the other", key='conversion attribute outside eq')
         # (c) memoised methods
         if not memoised:
             continue
